@@ -97,3 +97,24 @@ theorem modset_idem (A : Finset ℕ) (d : ℕ) : modset (modset A d) d = modset 
   funext x
   simp [Function.comp, Nat.mod_mod]
 end Pydsdl
+
+namespace Pydsdl
+theorem sumset_zero_right (A : Finset ℕ) : sumset A {0} = A := by
+  ext y
+  rw [mem_sumset]
+  constructor
+  · rintro ⟨a, ha, b, hb, rfl⟩
+    rw [Finset.mem_singleton] at hb
+    subst hb
+    simpa using ha
+  · intro hy
+    exact ⟨y, hy, 0, Finset.mem_singleton_self 0, by simp⟩
+
+theorem nsum_single (A : Finset ℕ) : nsum [A] = A := by
+  simp only [nsum]
+  exact sumset_zero_right A
+
+theorem nsum_pair (A B : Finset ℕ) : nsum [A, B] = sumset A B := by
+  simp only [nsum]
+  rw [sumset_zero_right]
+end Pydsdl
